@@ -117,6 +117,11 @@ impl C13 {
         let mut counter = k * 10_007;
         for step in 0..nops {
             counter += 1;
+            if rng.below(10) == 0 {
+                if let Some(d) = perturb(&mut ax, rng, &Perturb { areas: true, hooks: true, clone: true }) {
+                    return fail(col, "neutral-operation-visible", d, &tail, &layout);
+                }
+            }
             let areas_before = light_areas(&ax, heap_area);
             // now and then the host installs further handlers (or repeats names) in the middle of the run:
             // the break, the heap and its contents are unaffected
